@@ -796,18 +796,37 @@ pub fn check(a: &[String]) -> i32 {
             let _ = std::fs::remove_file(&raw_path);
             continue;
         };
-        // the tape replay itself must reproduce (in this process, fresh thread)
-        match rf.exec(false) {
-            Ok(rep) if rep.keys().iter().any(|k| k == key) => {
-                rf.expect_fingerprint = rep.fingerprint();
-            }
-            _ => {
+        // the tape replay itself must reproduce, then it is minimised: both in a child process (a
+        // shrink candidate, or the recorded run, may kill the process it runs in)
+        rf.save(&raw_path);
+        let secs = env_u64("ZSIM_SHRINK_S", 12);
+        let st = run_child(Command::new(std::env::current_exe().unwrap()).arg("confirm-shrink").arg(&raw_path).arg(&min_path).arg(secs.to_string()).arg(if minimise_this { "1" } else { "0" }), Duration::from_secs(secs * 4 + 120));
+        let min = match st {
+            Some((st, _)) if st.code() == Some(0) => match (ReplayFile::load(&raw_path), ReplayFile::load(&min_path)) {
+                (Ok(r), Ok(m)) => {
+                    rf = r;
+                    m
+                }
+                _ => {
+                    harness_errors.push(format!("violation {key}: the replay files written by the child cannot be read"));
+                    continue;
+                }
+            },
+            Some((st, _)) if st.code() == Some(4) => {
                 harness_errors.push(format!("violation {key}: tape replay does not reproduce the recorded run"));
                 let _ = std::fs::remove_file(&raw_path);
                 continue;
             }
-        }
-        let min = if minimise_this { shrink::minimise(&rf, Duration::from_secs(env_u64("ZSIM_SHRINK_S", 12))) } else { rf.clone() };
+            _ => {
+                // the child died or overran: keep the recorded run (with its fingerprint if the
+                // child got that far)
+                println!("note: minimisation of {key} did not finish in its child process; keeping the recorded (un-minimised) run");
+                if let Ok(r) = ReplayFile::load(&raw_path) {
+                    rf = r;
+                }
+                rf.clone()
+            }
+        };
         min.save(&min_path);
         // the file named in the VIOLATION line must reproduce in a fresh process; the minimised one
         // was found by in-process search, so check it there and fall back to the recorded run
